@@ -270,4 +270,4 @@ def write_manifest(path):
 
 
 HOOK_COMMITS = ["c9656b6"]
-FIX_COMMITS = ["48acad6", "f3d84e9", "be9d015", "f1a8fb7", "1cfb825", "8c4f97d", "f5bbfca", "5a43de4", "bb4d285", "5ad7c15", "d7cbe1d", "4a082f5", "870d37c", "bbdc498", "8f19308", "42821fe", "3b285b1", "b9c5421", "7c27ddf", "cd5aa0b", "9b1811c", "8ae0075", "fa5418c", "9583e08"]
+FIX_COMMITS = ["48acad6", "f3d84e9", "be9d015", "f1a8fb7", "1cfb825", "8c4f97d", "f5bbfca", "5a43de4", "bb4d285", "5ad7c15", "d7cbe1d", "4a082f5", "870d37c", "bbdc498", "8f19308", "42821fe", "3b285b1", "b9c5421", "7c27ddf", "cd5aa0b", "9b1811c", "8ae0075", "fa5418c", "9583e08", "00e00b3"]
